@@ -269,7 +269,9 @@ INFO = {
                    "comparisons, z3 covers the values inside each class), every sense byte is symbolic; the SG_IO binding "
                    "chooses between return / CheckConditionError / UnspecifiedError / OSError. Per path the property is "
                    "decided by z3: normal return implies GOOD, CHECK CONDITION implies CheckCondition with the target's "
-                   "key/ASC/ASCQ, every other status its named error, and no result is decoded from device garbage.",
+                   "key/ASC/ASCQ, every other status its named error, and no result is decoded from device garbage. The device "
+                   "object carries any of the five command sets (solver choice); the failure also has to leave a `with` block "
+                   "of the device and of the facade.",
     "functions": ["SCSIDevice.execute", "ISCSIDevice.execute", "SCSI.execute", "SCSI.<all 38 facade methods>",
                   "SCSICheckCondition.__init__", "SCSIDeviceExceptionMeta"],
     "bounds": {"status": "all 256 values", "sense": "18 bytes quick; 4/18/32/252 thorough, all contents",
